@@ -1,8 +1,10 @@
 package parser
 
-// Bounded stand-in O7 (DESIGN.md, C09-C12): the whole-command-line relations that the paper lifting lemma carries from the
+// Bounded stand-in O7 (DESIGN.md, C02, C06, C09-C12): the whole-command-line relations that the paper lifting lemma carries from the
 // proved per-matcher facts to State.Parse, checked on the REAL Parse for every spec up to a bound and every command line
 // built from at most K option/argument occurrences:
+//   C02  an accepted command line binds exactly what was written (flags iff present, the option's values in order and
+//        in place of the environment value, every positional exactly once and in order);
 //   C11  swapping two adjacent occurrences of different options changes neither acceptance nor any bound value;
 //   C10  re-spelling an occurrence (-a / --along / -a=true / --along=true; -o v / -o=v / -ov / --out v / --out=v) and
 //        folding adjacent short options (-a -b / -ab; -a -o v / -ao v / -aov) changes nothing;
@@ -142,6 +144,46 @@ func TestO7Relations(t *testing.T) {
 							base := o7render(occ)
 							r0 := e.run(g, base, envO)
 							checks++
+							// C02/C06: an accepted line binds exactly what was written: flags iff present, the option's values in
+							// order (replacing, not extending, the environment value), every positional exactly once and in order
+							if r0 != "rejected" {
+								var wantO, pos []string
+								wantA, wantB := false, false
+								for _, c := range occ {
+									switch c.kind {
+									case 'a':
+										wantA = true
+									case 'b':
+										wantB = true
+									case 'o':
+										wantO = append(wantO, c.val)
+									case 'p':
+										pos = append(pos, c.val)
+									}
+								}
+								if len(wantO) == 0 && envO {
+									wantO = []string{"E"}
+								}
+								e.run(g, base, envO) // rebinds the variables for inspection
+								okBind := *e.ba == wantA && *e.bb == wantB && strings.Join(*e.so, "\x00") == strings.Join(wantO, "\x00") && len(*e.so) == len(wantO)
+								// positionals: some split of pos into two order-preserving subsequences equals (X, Y)
+								split := false
+								for mask := 0; mask < 1<<uint(len(pos)) && !split; mask++ {
+									var xs, ys []string
+									for i, v := range pos {
+										if mask&(1<<uint(i)) != 0 {
+											xs = append(xs, v)
+										} else {
+											ys = append(ys, v)
+										}
+									}
+									split = strings.Join(xs, "\x00") == strings.Join(*e.sx, "\x00") && len(xs) == len(*e.sx) && strings.Join(ys, "\x00") == strings.Join(*e.sy, "\x00") && len(ys) == len(*e.sy)
+								}
+								if !okBind || !split {
+									report("C02", spec, base, base, r0, fmt.Sprintf("written: a=%v b=%v o=%q positionals=%q", wantA, wantB, wantO, pos), envs)
+									return
+								}
+							}
 							// C11: swap adjacent occurrences of different options
 							for i := 0; i+1 < len(occ); i++ {
 								if occ[i].kind == 'p' || occ[i+1].kind == 'p' || occ[i].kind == occ[i+1].kind {
